@@ -291,3 +291,13 @@ pub fn projrs_scaled(x: &[f64], dmax: i64) -> Value {
         json!({"p": p, "q": q, "e": e})
     }).collect())
 }
+
+/// Projection with an explicit magnitude scale for the residual exponent (a statistic whose exact value is 0
+/// is computed as ~1e-17 * scale and must still rationalise to 0).
+pub fn projr_scaled_by(x: f64, dmax: i64, scale: f64) -> Value {
+    if !x.is_finite() { return projr(x, dmax); }
+    if x == x.trunc() && x.abs() < 1e9 { return json!({"p": x as i64, "q": 1, "e": -999}); }
+    let (p, q, err) = rat(x, dmax);
+    let rel = err / x.abs().max(scale).max(1e-300);
+    json!({"p": p, "q": q, "e": if err == 0.0 { -999 } else { rel.log2().ceil() as i64 }})
+}
